@@ -331,6 +331,14 @@ Definition right_names (left_data right_data : table) : option (list (str * str)
   let raw := field_names right_data in
   right_names_loop (rename_fuel left raw) left raw raw [].
 
+(* the guard the injectivity proof forces: among the right field names that collide with a left field name, none is another one
+   followed by decimal digits ('a' and 'a1': 'a' + '12' = 'a1' + '2').  The loop does not test the names it has already handed out. *)
+Definition is_digit_ext (f1 f2 : str) : bool :=
+  str_prefix f1 f2 && negb (length f2 =? length f1)%nat && forallb is_dig (skipn (length f1) f2).
+Definition rename_guard (left raw : list str) : bool :=
+  let cs := filter (fun f => str_mem f left) raw in
+  forallb (fun f1 => forallb (fun f2 => negb (is_digit_ext f1 f2)) cs) cs.
+
 Definition rename (names : list (str * str)) (f : str) : str := match assoc f names with Some u => u | None => f end.
 
 (* join_row = dict(left_row); for right_name, right_value in right_row.items(): join_row[right_names[right_name]] = right_value *)
